@@ -448,6 +448,11 @@ def genC04 (tier : Tier) (seed : Nat) (o : Out) : IO Unit := do
       emit o ("catalogue/" ++ nme) P
   emit o "catalogue/same-named-structs-as-key-and-field" [file [str "K" [fld "a" (pt .bool)] true] "P", file [str "K" [fld "a" (pt .float32)] true] "Q",
     file [str "U" [fld "d" (tr (.dict (nm "P::K") (nm "Q::K")))], str "V" [fld "d" (tr (.dict (nm "Q::K") (nm "P::K")))]] "R"]
+  -- a definition that shares its fully-scoped name with a (nested) module, in both file orders
+  for P in [[file [str "B" []] "A", file [str "C" []] "A::B"], [file [str "C" []] "A::B", file [str "B" []] "A"],
+            [file [str "B" []] "A", file [str "D" []] "A::B::C"], [file [str "D" []] "A::B::C", file [str "B" []] "A"],
+            [file [str "X" []] "A", file [str "C" []] "A::B", file [enm "B" [enr "E"]] "A"]] do
+    emit o "catalogue/module-definition-name-clash" P
   emit o "catalogue/dup-struct-two-files" [file [str "S" []], file [str "S" []]]
   emit o "catalogue/same-name-two-modules" [file [str "S" []], file [str "S" []] "N"]
   emit o "catalogue/dup-struct-nested-module" [file [str "S" []] "A::B", file [enm "S" [enr "X"]] "A::B"]
